@@ -49,3 +49,85 @@ package res
 //@   loop 2 decreases pl - pi
 //@   loop 3 invariant loopentry(si) <= si && si <= sl && sl == len(s) && tokEnd(s, loopentry(si)) == tokEnd(s, si)
 //@   loop 3 decreases sl - si
+//@
+//@ # ---------------------------------------------------------------- IndexWildcard
+//@ spec func wildAt(p string, i int) bool
+//@   = tokStart(p, i) && (p[i] == '*' || p[i] == '$' || (p[i] == '>' && i == len(p)-1))
+//@
+//@ func (p Pattern) IndexWildcard() (res int)
+//@   ensures none: imp(res == -1, forall(k, 0, len(p), !wildAt(string(p), k)))
+//@   ensures first: imp(res != -1, 0 <= res && res < len(p) && wildAt(string(p), res) && forall(k, 0, res, !wildAt(string(p), k)))
+//@   loop 1 invariant 0 <= _pos && _pos <= len(p)
+//@   loop 1 invariant st: start == tokStart(string(p), _pos)
+//@   loop 1 invariant sofar: forall(k, 0, _pos, !wildAt(string(p), k))
+//@   loop 1 decreases len(p) - _pos
+//@
+//@ # ---------------------------------------------------------------- validators
+//@ spec func partch(c int) bool
+//@   = 33 <= c && c <= 126 && c != '?' && c != '*' && c != '>' && c != '.'
+//@
+//@ func isValidPart(p string) (res bool)
+//@   ensures sem: res == (len(p) > 0 && forall(k, 0, len(p), partch(p[k])))
+//@   loop 1 invariant 0 <= _pos && _pos <= len(p)
+//@   loop 1 invariant sofar: forall(k, 0, _pos, partch(p[k]))
+//@   loop 1 decreases len(p) - _pos
+//@
+//@ spec func qidx(s string, i int) int
+//@   decreases len(s) - i
+//@   = ite(i < 0 || i >= len(s) || s[i] == '?', i, qidx(s, i+1))
+//@ lemma qidx_bounds(s string, i int)
+//@   requires 0 <= i && i <= len(s)
+//@   ensures i <= qidx(s, i) && qidx(s, i) <= len(s)
+//@   decreases len(s) - i
+//@   trigger qidx(s, i)
+//@   use imp(i < len(s) && s[i] != '?', qidx_bounds(s, i+1))
+//@ spec func ridch(c int) bool
+//@   = 33 <= c && c <= 126 && c != '*' && c != '>'
+//@ spec func ridvalid(s string) bool
+//@   = qidx(s, 0) > 0 && forall(k, 0, qidx(s, 0), ridch(s[k])) && s[0] != '.' && s[qidx(s, 0)-1] != '.'
+//@     && forall(k, 0, qidx(s, 0)-1, !(s[k] == '.' && s[k+1] == '.'))
+//@
+//@ func IsValidRID(rid string) (res bool)
+//@   ensures sem: res == ridvalid(rid)
+//@   loop 1 invariant 0 <= _pos && _pos <= len(rid)
+//@   loop 1 invariant q: qidx(rid, 0) == qidx(rid, _pos)
+//@   loop 1 invariant st: start == tokStart(rid, _pos)
+//@   loop 1 invariant chars: forall(k, 0, _pos, ridch(rid[k]) && rid[k] != '?')
+//@   loop 1 invariant lead: imp(_pos > 0, rid[0] != '.')
+//@   loop 1 invariant dd: forall(k, 0, _pos-1, !(rid[k] == '.' && rid[k+1] == '.'))
+//@   loop 1 decreases len(rid) - _pos
+//@
+//@ func (r Ref) IsValid() (res bool)
+//@   ensures res == ridvalid(string(r))
+//@ func (r SoftRef) IsValid() (res bool)
+//@   ensures res == ridvalid(string(r))
+//@
+//@ # ---------------------------------------------------------------- IsValid
+//@ spec func tokBegin(p string, i int) int
+//@   decreases i
+//@   = ite(i <= 0 || i > len(p) || p[i-1] == '.', i, tokBegin(p, i-1))
+//@
+//@ func (p Pattern) IsValid() (res bool)
+//@   ensures sem: res == pvalid(string(p))
+//@   loop 1 invariant rng: 0 <= _pos && _pos <= len(p) && len(p) > 0
+//@   loop 1 invariant ch: forall(k, 0, _pos, p[k] == '.' || okch(p[k]))
+//@   loop 1 invariant lead: imp(_pos > 0, p[0] != '.')
+//@   loop 1 invariant dd: forall(k, 0, _pos-1, !(p[k] == '.' && p[k+1] == '.'))
+//@   loop 1 invariant star: forall(k, 0, _pos, imp(p[k] == '*', tokStart(string(p), k) && (k+1 >= _pos || p[k+1] == '.')))
+//@   loop 1 invariant gt: forall(k, 0, _pos, imp(p[k] == '>', tokStart(string(p), k) && k == len(p)-1))
+//@   loop 1 invariant tb: 0 <= tokBegin(string(p), _pos) && tokBegin(string(p), _pos) <= _pos && tokStart(string(p), tokBegin(string(p), _pos))
+//@   loop 1 invariant nodots: forall(k, tokBegin(string(p), _pos), _pos, p[k] != '.')
+//@   loop 1 invariant done: forall(k, 0, tokBegin(string(p), _pos), imp(tokStart(string(p), k) && p[k] == '$', !allDollar(string(p), k)))
+//@   loop 1 invariant st: start == tokStart(string(p), _pos)
+//@   loop 1 invariant al: alone == (_pos > 0 && p[_pos-1] == '*')
+//@   loop 1 invariant et: imp(emptytag, tokBegin(string(p), _pos) < _pos && p[tokBegin(string(p), _pos)] == '$' && allDollar(string(p), tokBegin(string(p), _pos)) == allDollar(string(p), _pos))
+//@   loop 1 invariant net: imp(!emptytag && tokBegin(string(p), _pos) < _pos && p[tokBegin(string(p), _pos)] == '$', !allDollar(string(p), tokBegin(string(p), _pos)))
+//@   loop 1 decreases len(p) - _pos
+//@
+//@ func isValidPath(p string) (res bool)
+//@   ensures sem: res == (len(p) == 0 || (pvalid(p) && forall(k, 0, len(p), !wildAt(p, k))))
+//@
+//@ func mergePattern(a string, b string) (res string)
+//@   ensures ea: imp(len(a) == 0, res == b)
+//@   ensures eb: imp(len(b) == 0 && len(a) > 0, res == a)
+//@   ensures cat: imp(len(a) > 0 && len(b) > 0, len(res) == len(a) + 1 + len(b) && res[0:len(a)] == a && res[len(a)] == '.' && res[len(a)+1:] == b)
